@@ -13,7 +13,7 @@
 (* the antecedent of the selected property really held (non-vacuity).      *)
 (* <<"DONE", n>> is printed when the last event has been consumed.         *)
 (***************************************************************************)
-EXTENDS Squitterator, Country, Json, IOUtils, TLC, FiniteSets
+EXTENDS Squitterator, Country, Render, Json, IOUtils, TLC, FiniteSets
 
 Rec == ndJsonDeserialize(IOEnv.TRACE)
 Prop == IOEnv.PROP
@@ -405,6 +405,40 @@ CountryStep(ev) ==
       /\ Mark("C17", TRUE, ev)
       /\ PrintT(<<"STAT", "C17", n, Cardinality(bad), Cardinality({i \in 1..NBlocks : Blocks[i].sure})>>)
 
+
+(***************************** C14 / C15 printed table *********************)
+\* ev: [flags, order : code points; rows : input rows (with regcp, ages in ms); header, sep, lines : code points]
+RowByAddr(rows, a) == LET ix == {j \in 1..Len(rows) : rows[j].a = a} IN IF ix = {} THEN <<>> ELSE <<rows[CHOOSE j \in ix : TRUE]>>
+PrintedAddrs(lines) == [j \in 1..Len(lines) |-> RowAddr(lines[j])]
+GroupOK(G, names, on) == IF on THEN G \subseteq names ELSE G \cap names = {}
+PrintStep(ev) ==
+  LET cols  == Cols(ev.sep)
+      names == {ColName(ev.header, cols[k]) : k \in 1..Len(cols)}
+      fl    == ToSet(ev.flags)
+      pa    == PrintedAddrs(ev.lines)
+      key   == LastKey(ev.order)
+      prow(j) == RowByAddr(ev.rows, pa[j])
+      keyed == SelectSeq([j \in 1..Len(ev.lines) |-> j], LAMBDA j : prow(j) # <<>> /\ KeyOf(key, prow(j)[1]) # <<>>)
+      ks    == [i \in 1..Len(keyed) |-> KeyOf(key, prow(keyed[i])[1])[1]]
+  IN
+  /\ Chk("C14", "layout", Len(ev.header) = Len(ev.sep) /\ Len(cols) >= 10 /\ (\A k \in 1..Len(cols) : ColName(ev.header, cols[k]) # <<>>)
+                           /\ BaseCols \subseteq names, ev, "header")
+  /\ Chk("C14", "groups", /\ GroupOK(GroupA, names, 65 \in fl) /\ GroupOK(GroupS, names, 115 \in fl)
+                           /\ GroupOK(GroupAng, names, 97 \in fl) /\ GroupOK(GroupW, names, 119 \in fl)
+                           /\ GroupOK(GroupE, names, 101 \in fl), ev, "groups")
+  /\ \A j \in 1..Len(ev.lines) :
+       LET r == prow(j) IN
+       /\ Chk("C14", "row.known", r # <<>>, [i |-> ev.i], "unknown.row")
+       /\ Chk("C14", "row.cells", (r # <<>> /\ Fits(cols, ev.header, r[1])) => RowOK(ev.lines[j], cols, ev.header, r[1]), [i |-> ev.i], "cells")
+       /\ Chk("C14", "row.width", (r # <<>> /\ Fits(cols, ev.header, r[1])) => Len(ev.lines[j]) = Len(ev.header), [i |-> ev.i], "width")
+  /\ Chk("C14", "one.line.each", Len(ev.lines) = Len(ev.rows), ev, "count")
+  /\ Mark("C14", Len(ev.rows) > 0, ev)
+  /\ Chk("C15", "each.once", Len(ev.lines) = Len(ev.rows) /\ Cardinality(ToSet(pa)) = Len(ev.rows)
+                              /\ ToSet(pa) = {ev.rows[j].a : j \in 1..Len(ev.rows)}, ev, "permutation")
+  /\ Chk("C15", "order", IF key = 0 THEN NonDecr(pa) ELSE Monotone(key, ks), ev,
+         IF key = 0 THEN "address" ELSE IF key \in {78, 83, 87, 69, 100, 68} THEN "float.key" ELSE "key")
+  /\ Mark("C15", Len(ev.rows) > 1, ev)
+
 (***************************** events **************************************)
 RunStep(ev) ==
   LET s    == ev.slot
@@ -473,6 +507,7 @@ Step(ev) ==
   ELSE IF ev.e = "tick" THEN TickStep(ev)
   ELSE IF ev.e = "save" THEN SaveStep(ev)
   ELSE IF ev.e = "restore" THEN RestoreStep(ev)
+  ELSE IF ev.e = "print" THEN (IF PrintStep(ev) THEN st ELSE st)
   ELSE IF ev.e = "country" THEN (IF CountryStep(ev) THEN st ELSE st)
   ELSE IF ev.e = "cli" THEN (IF CliStep(ev) THEN st ELSE st)
   ELSE IF ev.e = "icaosweep" THEN (IF IcaoSweepStep(ev) THEN st ELSE st)
